@@ -25,6 +25,7 @@ type World struct {
 	fset    *token.FileSet
 	typeIDs map[string]int
 	typeByKey map[string]types.Type
+	scopePkg  string // package of the function being verified (extern contract scoping)
 	gaddr   map[*ssa.Global]string
 	ufs     map[string]string
 	fnIndex map[string]*ssa.Function // pkg::key -> function
@@ -247,11 +248,21 @@ func (w *World) contractFor(fn *ssa.Function) *FuncContract {
 	if o := fn.Origin(); o != nil {
 		fn = o
 	}
-	return w.cs.Funcs[funcPkgPath(fn)+"::"+funcKey(fn)]
+	return w.lookupContract(funcPkgPath(fn) + "::" + funcKey(fn))
 }
 
 func (w *World) contractByKey(pkg, key string) *FuncContract {
-	return w.cs.Funcs[pkg+"::"+key]
+	return w.lookupContract(pkg + "::" + key)
+}
+
+func (w *World) lookupContract(k string) *FuncContract {
+	if c, ok := w.cs.Scoped[w.scopePkg+"|"+k]; ok {
+		return c
+	}
+	if w.cs.Ambig[k] {
+		return nil
+	}
+	return w.cs.Funcs[k]
 }
 
 func (c *FuncContract) RecvName() string {
